@@ -87,14 +87,15 @@ OBLIGATIONS = [
              "'bytes first-last/*' of the bytes sent, same bytes as the direct read",
         outside="decides nothing symbolically: it ties the header stand-ins of the symbolic obligations to the real text path"),
     # ---- chunked uploads -------------------------------------------------------------------------------------------------
-    chx("upload", "C31_h", "h_upload", timeout=T, bounds=_b(ln_min=1, ln_max=(K, 3 * K)),
+    chx("upload", "C31_h", "h_upload", timeout=T, bounds=_b(ln_min=1, ln_max=K),
         cases={"quick": [{"n": 1, "has1": 0, "_label": "1-chunk,<=64KiB"}, {"n": 1, "has1": 0, "l1_min": K + 1, "ln_max": 2 * K, "_label": "1-chunk,>64KiB"},
                          {"n": 1, "has1": 1, "_label": "1-chunk,share-1-stored"}]
                         + [{"n": 2, "has1": 0, "conflict": c, "shape": sh, "_label": "2-chunks,%s,second-%s" % (cn, shn)} for (c, cn) in _SOURCES for (sh, shn) in _SHAPES]
                         + [{"n": 1, "has1": 0, "ln_min": 0, "ln_max": 1, "_label": "length-0-or-1"}],
-               "thorough": [{"n": 1, "has1": h, "_label": "1-chunk,has1=%d" % h} for h in (0, 1)]
-                           + [{"n": 2, "has1": 0, "conflict": c, "shape": sh, "_label": "2-chunks,%s,second-%s" % (cn, shn)} for (c, cn) in _SOURCES for (sh, shn) in _SHAPES]
-                           + [{"n": 3, "has1": 0, "conflict": 0, "shape": sh, "ln_max": K, "_label": "3-chunks,second-%s" % shn} for (sh, shn) in _SHAPES]
+               "thorough": [{"n": 1, "has1": h, "ln_max": 3 * K, "_label": "1-chunk,has1=%d" % h} for h in (0, 1)]
+                           + [{"n": 2, "has1": 0, "conflict": c, "shape": sh, "ln_max": 2 * K, "_label": "2-chunks,%s,second-%s" % (cn, shn)}
+                              for (c, cn) in _SOURCES for (sh, shn) in _SHAPES]
+                           + [{"n": 3, "has1": 0, "conflict": 0, "shape": sh, "ln_max": K, "_label": "3-chunks,second-%s" % shn} for (sh, shn) in _SHAPES[:2]]
                            + [{"n": 1, "has1": 0, "ln_min": 0, "ln_max": 1, "_label": "length-0-or-1"}]},
         desc="allocate_buckets({0,1}) (share 1 optionally stored already) then 1-2 (thorough: 3) chunks with symbolic (offset, length <= 2*65536), any order, "
              "overlapping, optionally from another source (conflict), then close() when complete, through _HTTPStorageServer.allocate_buckets / _HTTPBucketWriter / "
